@@ -65,6 +65,7 @@ type simClock struct {
 	minStep int64
 	covered int64
 	reads   int
+	last    time.Time
 }
 
 func zoneOf(z string) *time.Location {
@@ -131,6 +132,10 @@ func (c *simClock) Now() time.Time {
 	}
 	t = t.In(c.zone)
 	c.reads++
+	if c.reads > 1 && t.Equal(c.last) && c.w.sch == nil {
+		c.w.stats["clock.same_instant_as_previous_read"]++
+	}
+	c.last = t
 	{
 		step := c.minStep
 		if step < 1 {
